@@ -15,4 +15,7 @@ CONSTANTS
   MaxFix = 2
   MaxAddr = 2
   Emitters = {1, 2, 3}
+  LNames <- MCNames
+  LTypes <- MCTypes
+  LParents <- MCParents
 INVARIANT RInv
